@@ -1,7 +1,10 @@
 #!/bin/sh
-# usage: selftest/mut.sh <patch-file> <check-id>...   : apply patch to /repo, run checks, revert
+# usage: selftest/mut.sh <patch-file> <check-id>...
+# applies the patch to a SCRATCH worktree of /repo HEAD (never /repo itself), runs the checks against it
+# (VERIF_REPO) with evidence/replays redirected (VERIF_OUT), removes the worktree.
 P="$1"; shift
-git -C /repo apply "$P" || exit 2
-for id in "$@"; do (cd /verif && ./check "$id" 2>&1 | grep -E "VIOLATION|KNOWN|MACHINERY|^C[0-9]+:" | head -${MUT_LINES:-6}); done
-git -C /repo checkout -- .
-git -C /repo status --short
+W=$(mktemp -d /tmp/mut.XXXXXX)
+git -C /repo worktree add -q --detach "$W/wt" HEAD || exit 2
+if ! git -C "$W/wt" apply "$P"; then echo "patch does not apply"; git -C /repo worktree remove --force "$W/wt"; rm -rf "$W"; exit 2; fi
+for id in "$@"; do (cd /verif && VERIF_REPO="$W/wt" VERIF_OUT="$W/out" ./check "$id" 2>&1 | grep -E "VIOLATION|KNOWN|MACHINERY|^C[0-9]+:" | cut -c1-200 | head -${MUT_LINES:-6}); done
+git -C /repo worktree remove --force "$W/wt"; rm -rf "$W"
